@@ -34,7 +34,7 @@ def truth(layout):
         v = v - (m // 3)
     if dt.kind == 'f':
         v = v * 0.5
-    if layout.get('big') and dt.kind == 'i':
+    if layout.get('big') and dt.kind in 'iu':
         # values close to the limits of the sample type (a product with a unit factor must not wrap)
         v = v * (np.iinfo(dt).max // (int(np.abs(v).max()) + 1))
     return v.astype(dt).reshape(n, nc)
